@@ -694,6 +694,7 @@ func execCoAPI(ops []Op) []string {
 			toks = nil
 			var obs []string
 			crash := ""
+			top0, depth0 := L.GetTop(), len(L.VerifFrames())
 			func() {
 				defer func() {
 					if r := recover(); r != nil {
@@ -725,6 +726,11 @@ func execCoAPI(ops []Op) []string {
 			}()
 			if crash != "" || ctx.Err() != nil {
 				out = append(out, "X gopanic-or-timeout "+crash+" => "+strings.Join(a, "_"))
+				return out
+			}
+			// the resumer's own state is untouched by whatever happened inside the coroutine (return, yield, error, refusal)
+			if top1, depth1 := L.GetTop(), len(L.VerifFrames()); top1 != top0 || depth1 != depth0 {
+				out = append(out, fmt.Sprintf("X resumer-state-changed => api-stack-top %d->%d call-depth %d->%d after %s (%s)", top0, top1, depth0, depth1, strings.Join(a, "_"), strings.Join(obs, "_")))
 				return out
 			}
 			out = append(out, "C06M "+op.String()+" => "+strings.Join(append(toks, obs...), " "))
